@@ -6,6 +6,7 @@ of every read_assignments.tsv line and the `Canonical` attribute of every transc
 reference for the reported strand; the strand of novel spliced models is compared with the available evidence.
 """
 import os
+import re
 import shutil
 from collections import defaultdict
 
@@ -267,6 +268,20 @@ def run(chk, scratch):
         d = os.path.join(scratch, "w%d_%s" % (seed, lvl))
         w, shared = make_world(seed)
         pipeline.write_world(w, d)
+        # the reference is the product of an earlier IsoQuant run with --check_canonical: every third transcript record already carries a
+        # Canonical attribute (a stale one: "False") and every gene record a transcripts attribute
+        lines_ = open(os.path.join(d, "a.gtf")).read().splitlines()
+        k_ = 0
+        for i_, l_ in enumerate(lines_):
+            f_ = l_.split("\t")
+            if len(f_) > 8 and f_[2] == "transcript":
+                k_ += 1
+                if k_ % 3 == 0:
+                    lines_[i_] = l_ + ' Canonical "False";'
+            elif len(f_) > 8 and f_[2] == "gene":
+                lines_[i_] = l_ + ' transcripts "7";'
+        with open(os.path.join(d, "a.gtf"), "w") as f__:
+            f__.write("\n".join(lines_) + "\n")
         out = os.path.join(d, "out")
         ev = os.path.join(d, "ev")
         r = pipeline.run(d, out, threads=threads, extra=["--check_canonical", "--report_canonical", lvl,
@@ -399,6 +414,18 @@ def run(chk, scratch):
                 annotated_intron_strand[(t.chrom, i)].add(t.strand)
         hidden_by_chain = {(t.chrom, tuple(t.introns)): t for g in w.genes for t in g.hidden}
         n_gtf = 0
+        for fname in ("transcript_models.gtf", "extended_annotation.gtf"):
+            # one Canonical attribute per transcript record, one transcripts attribute per gene record
+            for l_ in open(o.path(fname)):
+                f_ = l_.rstrip("\n").split("\t")
+                if len(f_) > 8 and f_[2] in ("transcript", "gene"):
+                    for key_ in (("Canonical",) if f_[2] == "transcript" else ("transcripts",)):
+                        vals_ = re.findall(r'(?:^|; ?)%s "([^"]*)"' % key_, f_[8])
+                        chk.count("records_checked_for_repeated_attributes")
+                        if len(vals_) > 1:
+                            chk.violation("gtf-flag:attribute-repeated:%s" % key_, "%s: %s record carries %s %d times (%s) in %s: %s" %
+                                          (desc, f_[2], key_, len(vals_), vals_, fname, f_[8][:160]), wit)
+                            break
         for fname, gm in (("transcript_models.gtf", o.models()), ("extended_annotation.gtf", o.extended())):
             for tid, recs in gm.transcript_recs.items():
                 t = gm.transcripts.get(tid)
